@@ -92,5 +92,7 @@ def main(tier):
     rep.attempt(tailguard.check, rep, 'EC', {'ec_dot_prod'}, 30, 20)
     rep.attempt(earlypass.check, rep, 'EC', {'ec_dot_prod'}, 0)
     import samecell
-    rep.attempt(samecell.check, rep, 'EC', {'ec_dot_prod'}, ['SRCARR[]'], ['DESTARR[]'], 130, typed=True)
+    rep.attempt(samecell.check, rep, 'EC', {'ec_dot_prod'}, ['SRCARR[]'], ['DESTARR[]', 'DEST'], 150, typed=True)
+    import lanemacro
+    rep.attempt(lanemacro.check, rep, 'EC', {'ec_dot_prod'}, 290)
     return rep.finish()
